@@ -61,7 +61,7 @@ package wire
 //@   modifies nothing
 
 //@ func parseCryptoFrame
-//@   props C08
+//@   props C08 C03
 //@   arith bv
 //@   ensures [consumed] implies(result2 == nil, result0 != nil && 2 <= result1 && result1 <= len(b))
 //@   ensures [on-error] implies(result2 != nil, result0 == nil && result1 == 0)
